@@ -42,8 +42,9 @@ def produce(doc, fmt, dest, scratch):
         doc.serialize(b, format=fmt)
         return b.getvalue()
     p = os.path.join(scratch, "out_%s.%s" % (fmt, fmt))
-    if os.path.exists(p):
-        os.remove(p)
+    # the destination exists already and holds a longer file (a previous, larger save to the same path)
+    with open(p, "wb") as fh:
+        fh.write(b"x" * 400000)
     doc.serialize(p, format=fmt)
     with open(p, "rb") as fh:
         return fh.read()
@@ -58,7 +59,8 @@ def same_xml(a, b):
 
 def content_of(d, fmt):
     if fmt == "rdf":
-        return lc_doc(d)
+        from harness.props import c07
+        return c07.sc_doc(d)          # set-based (RDF is a set of triples) but strict about the kind of every value
     return strict_doc(d)
 
 
